@@ -33,7 +33,7 @@ COMPONENTS = {"real": ["smpl_extract (all of it: actions, akai/*, util/*, struct
 ASSUMPTIONS = ["file, volume and stem names are [A-Z0-9] words with single inner spaces (sanitising is the identity on them); hostile names are C05/C06",
                "root key/semitone bytes are kept where the WAV smpl note stays in 0..127 (other values are C04's sweep)",
                "stereo pairs have equal length and equal rate"]
-EXPECTED_PROBES = ["exported_twice", "head_not_lowest", "exact_fill", "multi_partition", "reserved_run_dir", "start_gt_0", "end_lt_n", "empty_volume",
+EXPECTED_PROBES = ["exported_twice", "two_partitions_same_layout", "head_not_lowest", "exact_fill", "multi_partition", "reserved_run_dir", "start_gt_0", "end_lt_n", "empty_volume",
                    "stereo_pair", "rate_zero", "dirs_after_data", "knob_not_default", "zero_length_sample", "cli_crosscheck", "dir_spans_sectors", "file_ge_4_sectors", "empty_window"]
 SHRINK = {"max_attempts": 250, "max_seconds": 60.0,
           "simple_values": {"policy": ["contiguous"], "mode": ["chain"], "block": [4096], "rate": [44100]}}
@@ -43,6 +43,22 @@ CLI_EVERY = 50
 
 def gen(rng: random.Random, tier: str, index: int) -> dict:
     model = gen_buildable(rng, many_files=0.012, allow_empty_window=True)
+    if index % 9 == 4 and len(model["partitions"]) == 1 and total_words(model) < 400000:
+        # a second partition with exactly the same layout (same tables, same chains) and different audio: equally filled or
+        # cloned partitions are common on real media
+        import copy
+        from ..core import ScenarioInvalid
+        clone = copy.deepcopy(model["partitions"][0])
+        for v in clone["volumes"]:
+            for f in v["files"]:
+                if "key" in f:
+                    f["key"] = f["key"] + ".twin"
+        model["partitions"].append(clone)
+        try:
+            A.build(model)
+            model["twin_partition"] = True
+        except ScenarioInvalid:
+            model["partitions"].pop()
     return {"model": model, "block": pick_knob(rng, model), "cli": index % CLI_EVERY == 7, "twice": index % 3 == 1}
 
 
@@ -202,6 +218,8 @@ def run(sc: dict) -> RunResult:
             if er.budget:
                 res.add(PROP, "no_result", "export exceeded the step budget of %d" % budget)
             check_export(res, PROP, exp, er)
+            if model.get("twin_partition"):
+                res.probes["two_partitions_same_layout"] += 1
             if sc.get("twice") and not res.violations:
                 # the same opened image exported once more yields the same files
                 res.probes["exported_twice"] += 1
